@@ -124,6 +124,16 @@ func runMutant(repo, patch, id string, pc PropConfig) (bool, string) {
 			failed = append(failed, "flow#"+fc.Name)
 		}
 	}
+	var keyReads []KeyReads
+	_ = loadJSON(filepath.Join(vd, "keyreads.json"), &keyReads)
+	for _, kr := range keyReads {
+		if kr.Property != id {
+			continue
+		}
+		if ok, _ := runKeyReads(P, kr); !ok {
+			failed = append(failed, "reads#"+kr.Name)
+		}
+	}
 	if len(failed) > 0 {
 		return true, "fails: " + strings.Join(failed, ", ")
 	}
